@@ -582,7 +582,20 @@ def level1Child (fs : FS) : String → Sys → Option String → Json → Res L1
 /-- the constructor default `space = RDGridSpace()` (built once, in the default units system) -/
 def defaultSpace? : Res L1 := spaceFromDict Sys.default none (fun _ => none) (.obj [])
 
-def systemFromDict (parent : Sys) (base : Option String) (fs : FS) (j : Json) : Res L2 :=
+/-- `RDSystem.space` setter: no cell may name an environment beyond the network's list -/
+def finishSystem (o : L2) : Res L2 :=
+  let nenv : Nat := match o.lookup "network" with
+    | some (.child n) => (match n.lookup "environments" with | some (.strs l) => l.length | _ => 0)
+    | _ => 0
+  let envs : List Int := match o.lookup "space" with
+    | some (.child sp) =>
+      (match sp.lookup "cell_env" with
+       | some (.ints l) => l
+       | _ => (childList sp "nodes").map fun n => getInt n "environment")
+    | _ => []
+  if envs.any (fun e => decide (e ≥ (nenv : Int))) then .error .badValue else .ok o
+
+def systemFromDictRaw (parent : Sys) (base : Option String) (fs : FS) (j : Json) : Res L2 :=
   match j with
   | .obj kv =>
     -- "space" absent: the constructor default object, not a dictionary read in the system's units
@@ -598,6 +611,11 @@ def systemFromDict (parent : Sys) (base : Option String) (fs : FS) (j : Json) : 
         | .error e, _ => .error e
         | _, .error e => .error e
   | _ => .error .typeError
+
+def systemFromDict (parent : Sys) (base : Option String) (fs : FS) (j : Json) : Res L2 :=
+  match systemFromDictRaw parent base fs j with
+  | .error e => .error e
+  | .ok o => finishSystem o
 
 def systemToDict (o : L2) : Json :=
   let child (k : String) (w : L1 → Json) : Json := match o.lookup k with | some (.child c) => w c | _ => .null
